@@ -1,5 +1,9 @@
 SPECIFICATION Spec
-CONSTANTS MaxLen = 3
+CONSTANTS Kinds = {"plain"}
+          MixedServerSet = {}
+          MixedCoreServers = {}
+          MixedMethKeys = {"G", "P", "GP"}
+          MaxLen = 3
           MaxT = 2
           ServerSet = {"none", "psfirst"}
           CoreLen = 0
